@@ -88,6 +88,9 @@ impl PanicInfo {
     pub fn site(&self) -> String {
         let head: String = self
             .msg
+            .lines()
+            .next()
+            .unwrap_or("")
             .chars()
             .map(|c| if c.is_ascii_digit() { '#' } else { c })
             .take(48)
@@ -397,6 +400,30 @@ impl Run {
         }
     }
 
+    /// Bulk bookkeeping for engines that evaluate cases themselves (history search, workers).
+    pub fn add_evaluations(&mut self, family: &str, n: u64) {
+        self.evaluations += n;
+        *self.family_counts.entry(family.to_string()).or_insert(0) += n;
+    }
+    pub fn add_class(&mut self, family: &str, class: &str) {
+        self.classes.insert(hash_of(&(family, class)));
+    }
+    pub fn add_observed(&mut self, h: u64) {
+        self.observed.insert(h);
+    }
+    /// Record a mismatch found by such an engine (witness = serialized case).
+    pub fn add_mismatch(&mut self, family: &str, case: Value, sig: String, detail: String, count: u64) {
+        let idx = self.case_seq;
+        self.case_seq += 1;
+        let e = self.sigs.entry(sig).or_insert_with(|| SigRecord {
+            count: 0,
+            first_index: idx,
+            witness: json!({"family": family, "case": case}),
+            detail,
+        });
+        e.count += count;
+    }
+
     pub fn add_sample(&mut self, v: Value) {
         if self.samples.len() < 16 {
             self.samples.push(v);
@@ -550,11 +577,31 @@ pub struct KnownFinding {
 
 /// A known-finding signature matches exactly, or by prefix when it ends in `*`.
 fn sig_matches(pattern: &str, sig: &str) -> bool {
-    if let Some(p) = pattern.strip_suffix('*') {
-        sig.starts_with(p)
-    } else {
-        pattern == sig
+    // glob with `*` = any (possibly empty) substring
+    let parts: Vec<&str> = pattern.split('*').collect();
+    if parts.len() == 1 {
+        return pattern == sig;
     }
+    let mut pos = 0usize;
+    for (i, part) in parts.iter().enumerate() {
+        if part.is_empty() {
+            continue;
+        }
+        if i == 0 {
+            if !sig.starts_with(part) {
+                return false;
+            }
+            pos = part.len();
+        } else if i == parts.len() - 1 {
+            return sig.len() >= pos + part.len() && sig[pos..].ends_with(part);
+        } else {
+            match sig[pos..].find(part) {
+                Some(j) => pos += j + part.len(),
+                None => return false,
+            }
+        }
+    }
+    true
 }
 
 pub fn load_known_findings() -> Vec<KnownFinding> {
